@@ -544,6 +544,10 @@ def run_case(case):
     parse = env.serializer.polyhedral_termlist_from_string
     for s in strings:
         try:
+            try:
+                parse(s.replace(" ", ""))      # the same characters without blanks may be another relation (2 e1 / 2e1): reading it
+            except Exception:  # noqa: B902    # first must not influence how s itself is read
+                pass
             ts = parse(s)
             ts2 = parse(s)
             back = {v: k for k, v in NAME_SCHEMES[case.get("names", "plain")].items()}
